@@ -274,9 +274,12 @@ def part_root_numbers(ctx):
     so it stays within [0, cutoff_distance_for_pairs] even where the diff is a type change"""
     from deepdiff import DeepDiff
     D = decimal.Decimal
-    nums = [True, False, 0, 1, 5, -3, 2, 7.5, 0.0, -1.0, 1.0, D('4.2'), D('1'), D('0'), 10 ** 6, 1e-9]
+    from deepdiff.distance import _get_numbers_distance
+    nums = [True, False, 0, 1, 5, -3, 2, 7.5, 0.0, -1.0, 1.0, D('4.2'), D('1'), D('0'), 10 ** 6, 1e-9, D('Infinity'), D('-Infinity'), D('9E+999999'), D('8E+999999'), D('-9E+999999'), D('1E-999999')]
+    cfg_list = [{}, {'ignore_order': True}, {'view': 'tree'}, {'cutoff_distance_for_pairs': 0.6}, {'cutoff_distance_for_pairs': 1}, {'cutoff_distance_for_pairs': 0.05}]
     for a, b in itertools.product(nums, repeat=2):
-        for cfg in ({}, {'ignore_order': True}, {'view': 'tree'}, {'cutoff_distance_for_pairs': 0.6}):
+        ctx.rng.shuffle(cfg_list)              # the order of the calls varies: a result must not depend on what was asked before with another cutoff
+        for cfg in list(cfg_list):
             ctx.evaluations += 1
             case = {'kind': 'deep', 't1': repr(a), 't2': repr(b), 'cfg': cfg}
             try:
@@ -290,6 +293,12 @@ def part_root_numbers(ctx):
                 ctx.nontriv((repr(a), repr(b), repr(sorted(cfg.items())), 'root numbers'))
             if d is not None and not (0 <= d <= mx):
                 ctx.violate(case, 'deep_distance %r of two numbers at the root is outside [0, %r]' % (d, mx))
+            try:
+                want = _get_numbers_distance(a, b, mx)
+            except Exception:
+                want = None
+            if want is not None and d is not None and want == want and abs(d - want) > 1e-12:
+                ctx.violate(case, 'deep_distance %r of two numbers at the root is not the number distance %r under this call\'s cutoff' % (d, want))
             if a == b and d not in (None, 0):
                 ctx.violate(case, 'numbers that are == but deep_distance = %r' % d)
             if a != b and not (d is not None and d > 0):
